@@ -66,6 +66,9 @@ func (p *ProdGen) dstWithMessenger() uint32 {
 func (p *ProdGen) ValidDeposit(withCaller bool, amtMode int) sdk.Msg {
 	r := p.E.Rc.Rand
 	from, bal := p.funded()
+	if r.Intn(12) == 0 {
+		from, bal = LongAcct(), p.E.C.Balance(LongAcctBytes(), p.E.MintDenom())
+	}
 	amt := big.NewInt(int64(1 + r.Intn(1000)))
 	switch amtMode {
 	case 1: // exactly the balance
@@ -210,6 +213,9 @@ func (p *ProdGen) Replacement(cls string) sdk.Msg {
 		from := em.Depositor
 		att := e.Attest(orig, r.Intn(3))
 		mr := Structured32(byte(1 + r.Intn(250)))
+		if r.Intn(5) == 0 {
+			newCaller = nil // "no destination caller requested"
+		}
 		switch cls {
 		case "others-deposit":
 			from = Acct((AcctIndex(from) + 1 + r.Intn(NAccounts-1)) % NAccounts)
@@ -218,7 +224,7 @@ func (p *ProdGen) Replacement(cls string) sdk.Msg {
 		case "deposit-unattested":
 			att = MutateAttestation(r, orig, att, e.EnabledPoolKeys(), int(e.M.Threshold))
 		case "new-recipient-shapes":
-			mr = [][]byte{nil, make([]byte, 32), Structured32(1)[:31], append(Structured32(1), 0)}[r.Intn(4)]
+			mr = [][]byte{nil, make([]byte, 32), Structured32(1)[:31], append(Structured32(1), 0), append(Structured32(1), Structured32(2)...), append(append(Structured32(1), Structured32(2)...), Structured32(3)...)}[r.Intn(6)]
 		}
 		return &ct.MsgReplaceDepositForBurn{From: from, OriginalMessage: orig, OriginalAttestation: att, NewDestinationCaller: newCaller, NewMintRecipient: mr}
 	case "attested-unissued-nonce":
